@@ -163,6 +163,39 @@ REDEF = {'none': {}, 'mu': {'mu': 'mu2'}, 'a': {'a': 'a2'}, 'Nxx': {'Nxx': 'Nxx2
          'flag': {'w1rx': 'w1rx2'}, 'b': {'b': 'b2'}, 'r': {'r': 'r2'}, 'Nxy': {'Nxy': 'Nxy2', 'Nyy': 'Nyy2'}, 'order': {'n': 2}, 'alpha': {'alphadeg': 'alpha2'}}
 
 
+DEFN_ATTRS = ['a', 'b', 'r', 'alphadeg', 'stack', 'plyt', 'plyts', 'laminaprop', 'laminaprops', 'mu', 'offset', 'Nxx', 'Nyy', 'Nxy',
+              'Nxx_cte', 'Nyy_cte', 'Nxy_cte', 'm', 'n', 'nx', 'ny', 'y1', 'y2', 'model', 'flow', 'Mach', 'V', 'rho_air', 'speed_sound',
+              'force_orthotropic_laminate'] + [c_ + e_ + d_ for c_ in 'uvw' for e_ in ('1t', '1r', '2t', '2r') for d_ in 'xy']
+
+
+def snapshot(p):
+    out = {}
+    for nm in DEFN_ATTRS:
+        v = getattr(p, nm, None)
+        out[nm] = (v, list(v) if isinstance(v, list) else None)
+    return out
+
+
+def definition_changes(p, snap):
+    """names of definition attributes an evaluation method has changed (None and 0 count as the same 'absent' value)"""
+    bad = []
+    for nm, (v0, l0) in snap.items():
+        v1 = getattr(p, nm, None)
+        if v1 is v0:
+            if l0 is not None and (len(v1) != len(l0) or any(a is not b and a != b for a, b in zip(v1, l0))):
+                bad.append(nm + ' (list edited in place)')
+            continue
+        absent = lambda x: x is None or (isinstance(x, (int, float)) and x == 0)
+        if absent(v0) and absent(v1):
+            continue
+        if isinstance(v0, (int, float, str, bool)) and isinstance(v1, (int, float, str, bool)) and v0 == v1:
+            continue
+        if isinstance(v0, Sym) and isinstance(v1, Sym) and v0.same(v1):
+            continue
+        bad.append(nm)
+    return bad
+
+
 def build(cfg, values=None):
     if cfg.get('shell'):
         # complete shells: the laminate matrix handed to the kernels and the geometric stiffness do not depend on how many times
@@ -193,7 +226,14 @@ def build(cfg, values=None):
             w.apply_defn(p, REDEF[redef])
             if redef == 'order':
                 t1, g1 = ops_panel(w, p)       # the caller supplies vectors of the new size
+        snap = snapshot(p)
+        if last in ('calc_kA', 'calc_cA'):
+            snap.pop('r', None)
         r_hist = flat(t1[last](), last)
+        for nm in definition_changes(p, snap):
+            if nm in ('model',) and snap['model'][0] is None:
+                continue
+            obs.append(('definition-attribute-unchanged-by-%s[%s]' % (last, nm), Sym.lift(1), Sym.lift(0)))
         for nm, (arr, copy) in g1.items():
             for k in range(len(arr)):
                 if arr[k] is not copy[k]:
